@@ -21,7 +21,7 @@ import (
 )
 
 func init() {
-	registerExtractor("stdio", []string{"GoPlugin.Model.Stdio"}, extractStdio)
+	registerExtractor("stdio", []string{"GoPlugin.Model.Stdio", "GoPlugin.Model.StdioConn"}, extractStdio)
 }
 
 const (
@@ -760,6 +760,64 @@ func extractStdio(p *pkgs, f *facts) {
 	} else {
 		f.miss = append(f.miss, "dialGRPCConn(stdio)")
 	}
+	// StdioConn: the net/rpc server's per-connection copier ends with its connection — copyChanStream returns on `<-done`
+	// (a select arm of its own AND a non-blocking check before every receive), and ServeConn passes the session's CloseChan()
+	endsWithConn := false
+	if cs := p.fn("", "copyChanStream"); cs != nil && cs.Type.Params != nil {
+		var names []string
+		for _, fl := range cs.Type.Params.List {
+			for _, n := range fl.Names {
+				names = append(names, n.Name)
+			}
+		}
+		if len(names) == 4 {
+			done := names[3]
+			arms, first := 0, false
+			sels, _ := selectsOf(p, cs)
+			for i, si := range sels {
+				hasDone, hasDefault, returns := false, false, false
+				for _, c := range si.stmt.Body.List {
+					cc := c.(*ast.CommClause)
+					if cc.Comm == nil {
+						hasDefault = true
+						continue
+					}
+					if strings.Contains(commString(cc.Comm), "<-"+done) {
+						hasDone = true
+						for _, b := range cc.Body {
+							if _, ok := b.(*ast.ReturnStmt); ok {
+								returns = true
+							}
+						}
+					}
+				}
+				if hasDone && returns {
+					arms++
+					if i == 0 && hasDefault {
+						first = true
+					}
+				}
+			}
+			endsWithConn = arms >= 2 && first
+		}
+		if sc := p.fn("RPCServer", "ServeConn"); sc != nil {
+			n, ok := 0, 0
+			for _, c := range calls(sc.Body, "copyChanStream", false) {
+				n++
+				if len(c.Args) == 4 && strings.HasSuffix(exprString(c.Args[3]), ".CloseChan()") {
+					ok++
+				}
+			}
+			// … and nothing in ServeConn copies the server's readers any other way
+			if n == 0 || ok != n || len(calls(sc.Body, "copyStream", false)) > 0 || len(calls(sc.Body, "io.Copy", false)) > 0 {
+				endsWithConn = false
+			}
+		} else {
+			endsWithConn = false
+		}
+	}
+	f.lean = append(f.lean, fmt.Sprintf("def stdioConn : StdioConn.Params := ⟨%s⟩", leanBool(endsWithConn)))
+	js["copierEndsWithConn"] = endsWithConn
 	js["clientKeepalive"] = leanKA
 	f.lean = append(f.lean, fmt.Sprintf("def stdio : Stdio.Params := ⟨%d, %s, %s, %s, %s, %s, %s, %d, %d, %d, %d, %s, %s⟩",
 		chunk, leanBool(sendsExact), tagStdout, tagStderr, leanBool(skipOnlyEmpty),
